@@ -417,3 +417,106 @@ def int_op_trait(I, m, a, dt):
         return VInt(I.wrap(t.items[0].v, ty), ty)
     if I.branch(y.v == 0): raise PathEnd('panic', 'division by zero')
     return I.int_binop(op.capitalize(), x, y)
+@model(r'^<' + INTTY + r' as (?:num::|num_traits::)?(?:identities::)?(Zero|One)>::(is_zero|is_one|zero|one)$')
+def int_zero_one(I, m, a, dt):
+    ty = m.group(1); k = m.group(3)
+    if k == 'zero': return VInt(0, ty)
+    if k == 'one': return VInt(1, ty)
+    return VBool(deref(I, a[0]).v == (0 if k == 'is_zero' else 1))
+
+# ---- further Option / Result combinators (so that small refactorings of the crate stay executable) ----
+def _eq_vals(I, x, y, ty=''):
+    """structural equality of two values as a condition"""
+    x = deref(I, x); y = deref(I, y)
+    if isinstance(x, (VInt, VBool)) and isinstance(y, (VInt, VBool)): return x.v == y.v
+    if isinstance(x, VEnum) and isinstance(y, VEnum):
+        if x.variant != y.variant: return False
+        return zand(*[_eq_vals(I, a, b) for a, b in zip(x.items, y.items)])
+    if isinstance(x, (VTuple, VStruct)) and isinstance(y, (VTuple, VStruct)) and len(x.items) == len(y.items):
+        return zand(*[_eq_vals(I, a, b) for a, b in zip(x.items, y.items)])
+    if isinstance(x, VUnit) and isinstance(y, VUnit): return True
+    from .strings import StrS, str_eq_cond
+    if isinstance(x, StrS) and isinstance(y, StrS): return str_eq_cond(x, y)
+    from mirsym import VRat, VBig
+    if isinstance(x, (VRat, VBig)) and isinstance(y, (VRat, VBig)):
+        from .num import req
+        return req(x.v, y.v)
+    raise Unsupported(f'equality of {x!r} and {y!r}')
+@model(r'^<' + OPT + r'<(.*)> as (?:std::cmp::)?PartialEq>::(eq|ne)$|^<' + RES + r'<(.*)> as (?:std::cmp::)?PartialEq>::(eq|ne)$')
+def opt_eq(I, m, a, dt):
+    r = _eq_vals(I, a[0], a[1])
+    op = m.group(2) or m.group(4)
+    return VBool(r if op == 'eq' else znot(r))
+@model(r'^<\((.*)\) as (?:std::cmp::)?PartialEq>::(eq|ne)$')
+def tuple_eq(I, m, a, dt):
+    r = _eq_vals(I, a[0], a[1]); return VBool(r if m.group(2) == 'eq' else znot(r))
+@model(r'^' + OPT + r'::<.*>::(unwrap_or_else|map_or|map_or_else|filter|or|or_else|xor|and|zip|is_some_and|is_none_or|insert|replace|get_or_insert_with|get_or_insert|inspect|ok_or)(?:::<.*>)?$')
+def opt_more(I, m, a, dt):
+    k = m.group(1); o = a[0]
+    if k in ('insert', 'replace', 'get_or_insert_with', 'get_or_insert'):
+        cur = I.read_ref(o)
+        if k == 'replace': I.write_ref(o, some(a[1])); return cur
+        if k == 'insert' or cur.variant == 'None':
+            v = a[1] if k != 'get_or_insert_with' else I.call(a[1], [])
+            I.write_ref(o, some(v))
+        return VRef(o.cell, o.path + [('field', 0)])
+    isome = o.variant == 'Some'
+    if k == 'unwrap_or_else': return o.items[0] if isome else I.call(a[1], [])
+    if k == 'map_or': return I.call(a[2], [o.items[0]]) if isome else a[1]
+    if k == 'map_or_else': return I.call(a[2], [o.items[0]]) if isome else I.call(a[1], [])
+    if k == 'filter':
+        if not isome: return o
+        keep = I.call(a[1], [VRef(Cell(o.items[0]), [])])
+        return o if I.branch(keep.v) else none()
+    if k == 'or': return o if isome else a[1]
+    if k == 'or_else': return o if isome else I.call(a[1], [])
+    if k == 'and': return a[1] if isome else none()
+    if k == 'xor':
+        b = a[1]
+        if isome != (b.variant == 'Some'): return o if isome else b
+        return none()
+    if k == 'zip': return some(VTuple([o.items[0], a[1].items[0]])) if isome and a[1].variant == 'Some' else none()
+    if k == 'is_some_and': return VBool(I.call(a[1], [o.items[0]]).v) if isome else VBool(False)
+    if k == 'is_none_or': return VBool(I.call(a[1], [o.items[0]]).v) if isome else VBool(True)
+    if k == 'inspect':
+        if isome: I.call(a[1], [VRef(Cell(o.items[0]), [])])
+        return o
+    if k == 'ok_or': return ok(o.items[0]) if isome else err(a[1])
+    raise Unsupported('Option::' + k)
+@model(r'^' + RES + r'::<.*>::(unwrap_or|unwrap_or_else|unwrap_or_default|and_then|or_else|err|map_or|map_or_else|is_ok_and|is_err_and|and|or|unwrap_err|expect_err|copied|cloned|as_ref|as_mut)(?:::<.*>)?$')
+def res_more(I, m, a, dt):
+    k = m.group(1); r = a[0]
+    if k in ('as_ref', 'as_mut'):
+        v = deref(I, r); return VEnum('Result', v.variant, [VRef(r.cell, r.path + [('field', 0)])])
+    isok = r.variant == 'Ok'
+    if k == 'unwrap_or': return r.items[0] if isok else a[1]
+    if k == 'unwrap_or_else': return r.items[0] if isok else I.call(a[1], [r.items[0]])
+    if k == 'unwrap_or_default':
+        if isok: return r.items[0]
+        mm = re.search(r'Result::<(\w+),', m.group(0))
+        if mm and mm.group(1) in INT_RANGE: return VInt(0, mm.group(1))
+        if mm and mm.group(1) == 'bool': return VBool(False)
+        raise Unsupported('Result::unwrap_or_default')
+    if k == 'and_then': return I.call(a[1], [r.items[0]]) if isok else r
+    if k == 'or_else': return r if isok else I.call(a[1], [r.items[0]])
+    if k == 'err': return none() if isok else some(r.items[0])
+    if k == 'map_or': return I.call(a[2], [r.items[0]]) if isok else a[1]
+    if k == 'map_or_else': return I.call(a[2], [r.items[0]]) if isok else I.call(a[1], [r.items[0]])
+    if k == 'is_ok_and': return VBool(I.call(a[1], [r.items[0]]).v) if isok else VBool(False)
+    if k == 'is_err_and': return VBool(False) if isok else VBool(I.call(a[1], [r.items[0]]).v)
+    if k == 'and': return a[1] if isok else r
+    if k == 'or': return r if isok else a[1]
+    if k in ('unwrap_err', 'expect_err'):
+        if isok: raise PathEnd('panic', 'unwrap_err on Ok')
+        return r.items[0]
+    if k in ('copied', 'cloned'): return ok(I.copyval(deref(I, r.items[0]))) if isok else r
+    raise Unsupported('Result::' + k)
+@model(r'^<' + OPT + r'<(.*)> as Clone>::clone$')
+def opt_clone(I, m, a, dt):
+    o = deref(I, a[0])
+    if o.variant == 'None': return none()
+    v = o.items[0]
+    if isinstance(v, (VInt, VBool)): return some(v)
+    return some(I.call(f'<{m.group(1)} as Clone>::clone', [VRef(Cell(v), [])]))
+@model(r'^<' + OPT + r'<.*> as Default>::default$')
+def opt_default(I, m, a, dt): return none()
